@@ -101,9 +101,27 @@ def build(repo):
                requires=['Delta > 0', 'd_max_iters >= 1', 'd_tol >= 0'], modifies=[], result='V',
                loops={'for:ii#0': ['norm(d) <= Delta']},
                ensures=['||d|| <= Delta (real arithmetic):: norm(result) <= Delta'])
+    PICK = [('the step returned is one of the two candidates (minimiser / maximiser of the linear function):: result == G.smin or result == G.smax', 'C13'),
+            ('of the two candidates the one with the larger |c + g.s| is returned (the comparison that makes the geometry step attain its maximum):: '
+             'abs(c + DOT(g, result)) >= abs(c + DOT(g, G.smin)) and abs(c + DOT(g, result)) >= abs(c + DOT(g, G.smax))', 'C13')]
+    D.ghost_shapes.update({'smin': 'V', 'smax': 'V'})
     D.contract('ctrsbox_geometry', tags=['C13'], params={'xbase': 'V', 'c': 'real', 'g': 'V', 'projections': 'plist', 'Delta': 'real', 'd_max_iters': 'int', 'd_tol': 'real'},
-               requires=['Delta > 0'], modifies=[], result='V',
-               ensures=['||s|| <= Delta (real arithmetic):: norm(result) <= Delta'])
+               requires=['Delta > 0'], modifies=['G.smin', 'G.smax'], result='V',
+               ghost_after_assign={'smin': [('G.smin', 'smin')], 'smax': [('G.smax', 'smax')]},
+               ensures=['||s|| <= Delta (real arithmetic):: norm(result) <= Delta'] + PICK)
+    D.contract('trsbox_linear', tags=['C13'], params={'g': 'V', 'a_in': 'V', 'b_in': 'V', 'Delta': 'real'}, modifies=[], result='V',
+               ensures=['A-def (a deterministic function of its arguments):: result == TRLIN(g, a_in, b_in, Delta)'], assumed=True,
+               notes='active-set loop of the bound-constrained linear problem: opaque here (its feasibility / optimality is a not-decided clause of C13); only what '
+                     'trsbox_geometry does with its two results is under contract')
+    D.contract('trsbox_geometry', tags=['C13'], params={'xbase': 'V', 'c': 'real', 'g': 'V', 'lower': 'V', 'upper': 'V', 'Delta': 'real'},
+               requires=[], modifies=['G.smin', 'G.smax'], result='V',
+               ghost_after_assign={'smin': [('G.smin', 'smin')], 'smax': [('G.smax', 'smax')]},
+               ensures=[('the two candidates are the linear problem solved for g (minimise) and for -g (maximise) over the box shifted to xbase and the ball of radius Delta:: '
+                         'G.smin == TRLIN(g, vsub(lower, xbase), vsub(upper, xbase), Delta) and G.smax == TRLIN(vscaler(-1.0, g), vsub(lower, xbase), vsub(upper, xbase), Delta)', 'C13'),
+                        ('the point returned is xbase plus one of the two candidate steps:: result == vadd(xbase, G.smin) or result == vadd(xbase, G.smax)', 'C13'),
+                        ('of the two candidates the one with the larger |c + g.s| is returned:: '
+                         'implies(result == vadd(xbase, G.smin), abs(c + DOT(g, G.smin)) >= abs(c + DOT(g, G.smax))) and '
+                         'implies(result == vadd(xbase, G.smax) and result != vadd(xbase, G.smin), abs(c + DOT(g, G.smax)) > abs(c + DOT(g, G.smin)))', 'C13')])
     # ------------------------------------------------------------------ model value and the zero-step substitution
     D.contract('model_value', tags=['C13'], params={'g': 'V', 'H': 'V', 's': 'V', 'xopt': 'V', 'h': 'opt:cb:h'}, requires=[], modifies=[], result='real',
                ensures=['A-def (the model value is a function of its arguments; h is deterministic, A-callback):: result == MVF(g, H, s, xopt)',
@@ -138,5 +156,5 @@ def build(repo):
                          'bound-constrained geometry step attain its maximum along the last free direction):: '
                          'implies(DOT(g, g) >= 1e-28, DOT(g, g) * result * result + 2 * DOT(g, x0) * result + DOT(x0, x0) == Delta * Delta)'),
                         'a numerically zero direction gives no step:: implies(DOT(g, g) < 1e-28, result == 0)'])
-    D.verify_list = ['ball_step', 'model_value', 'Controller.trust_region_step', 'Controller.evaluate_criticality_measure', 'dykstra', 'pball', 'ctrsbox_pgd', 'ctrsbox_sfista', 'ctrsbox_linear', 'ctrsbox_geometry']
+    D.verify_list = ['ball_step', 'model_value', 'Controller.trust_region_step', 'Controller.evaluate_criticality_measure', 'dykstra', 'pball', 'ctrsbox_pgd', 'ctrsbox_sfista', 'ctrsbox_linear', 'ctrsbox_geometry', 'trsbox_geometry']
     return D
